@@ -6,12 +6,21 @@
 #include <sys/types.h>
 #include <sys/socket.h>
 #include <unistd.h>
+#include <sys/time.h>
 #include <random>
 #define private public
 #include "ephemeralnet/network/SessionManager.hpp"
 #undef private
 namespace { std::string g_in; std::size_t g_in_pos = 0; std::string g_sent; unsigned g_closed = 0; unsigned g_rd = 0; bool g_rd_symbolic = false; }
+// receive timeout (SO_RCVTIMEO) of the one modelled socket: while it is armed a recv() may give up with EAGAIN at any point (the peer
+// was idle for longer than the timeout); disarmed, recv() waits for the data
+namespace { bool g_rcv_timeout_armed = false; bool g_timeouts_modelled = false; }
+extern "C" int setsockopt(int, int level, int optname, const void* optval, socklen_t optlen) {
+    if (level == SOL_SOCKET && optname == SO_RCVTIMEO && optval && optlen >= sizeof(timeval)) { const timeval* tv = static_cast<const timeval*>(optval); g_rcv_timeout_armed = tv->tv_sec != 0 || tv->tv_usec != 0; }
+    return 0;
+}
 extern "C" ssize_t recv(int, void* buf, size_t n, int) {
+    if (g_timeouts_modelled && g_rcv_timeout_armed && g_in_pos < g_in.size() && nondet_bool("peer_idle_longer_than_armed_timeout")) { errno = EAGAIN; return -1; }
     if (g_in_pos >= g_in.size() || n == 0) return 0;                               // peer closed
     const std::size_t k = n < g_in.size() - g_in_pos ? n : g_in.size() - g_in_pos;
     for (std::size_t i = 0; i < k; ++i) static_cast<char*>(buf)[i] = g_in[g_in_pos + i];
@@ -90,4 +99,33 @@ extern "C" void h_c14_receive(unsigned long nframes, unsigned long len, unsigned
     verif_assert(!session->running.load() && g_closed >= 1, "C14: when the stream ends or announces an oversized frame the session is closed");
     if (trailer) verif_assert(g_in_pos <= g_in.size() - 8, "C14: an oversized frame is not buffered (its body is never read)");
     verif_reach("received");
+}
+// an accepted (inbound) session: the handshake payload is read with the 2000 ms handshake timeout (read_handshake_payload), then the
+// receive loop runs on the same socket while the peer sends `nframes` frames with arbitrary pauses. Every frame must be delivered.
+extern "C" void h_c14_accepted(unsigned long nframes, unsigned long len) {
+    PartialManager pm; SessionManager* m = pm.mgr();
+    g_delivered.clear(); m->handler_ = [](const TransportMessage& msg) { g_delivered.push_back(msg.payload); };
+    auto session = std::make_shared<SessionManager::Session>();
+    nondet_bytes(session->key.data(), 32, "key"); session->socket = 9; session->running.store(true);
+    PeerId peer{}; peer[0] = 7;
+    g_in.clear(); g_in_pos = 0; g_closed = 0; g_rcv_timeout_armed = false; g_timeouts_modelled = false;
+    const char hs[8] = {0, 0, 0, 4, 'h', 's', 'h', 's'}; g_in.append(hs, 8);                      // handshake payload: BE32 length + 4 bytes
+    std::vector<std::vector<std::uint8_t>> sent;
+    for (unsigned long f = 0; f < nframes; ++f) {
+        crypto::Key k{}; k.bytes = session->key; crypto::Nonce n{}; nondet_bytes(n.bytes.data(), 12, "nonce");
+        std::vector<std::uint8_t> payload(len), ct; if (len) nondet_bytes(payload.data(), len, "payload");
+        crypto::ChaCha20::apply(k, n, payload, ct, 0u);
+        g_in.append(reinterpret_cast<const char*>(n.bytes.data()), 12);
+        const char lenbuf[4] = {0, 0, static_cast<char>(len >> 8), static_cast<char>(len)}; g_in.append(lenbuf, 4);
+        g_in.append(reinterpret_cast<const char*>(ct.data()), ct.size());
+        sent.push_back(payload);
+    }
+    std::vector<std::uint8_t> hsbuf;
+    const bool hs_ok = m->read_handshake_payload(session->socket, hsbuf, std::chrono::milliseconds(2000));     // the peer answers the handshake promptly
+    verif_assert(hs_ok && hsbuf.size() == 4, "C14: the handshake payload is read");
+    g_timeouts_modelled = true;                                                                                // from here on the peer may pause for any length of time
+    m->receive_loop(peer, session);
+    verif_assert(g_delivered.size() == sent.size(), "C14: every payload sent to a connected peer is delivered whatever the pauses between sends (no handshake timeout stays armed)");
+    for (std::size_t i = 0; i < sent.size() && i < g_delivered.size(); ++i) verif_assert(g_delivered[i] == sent[i], "C14: payloads arrive byte for byte and in send order");
+    verif_reach("accepted-session");
 }
